@@ -16,6 +16,16 @@ Correspondence (every run, on /repo as it is):
        the definitions the theorems its_to_rsmi_graph_part / _totalH / _skeleton are about)
 (iii)/(iv) are the RDKit-dependent part of C01: they cannot be proved in Lean and rest on this run.
 
+(iii)/(iv) by shape of the input (decided by the harness from the two input graphs, never by the code under test):
+ * no explicit hydrogen outside the centre, or none inside it, or `explicit_hydrogen=True`: its_to_rsmi folds nothing, (iii) and (iv);
+ * explicit hydrogens on both sides of that line, each one outside bonded to a heavy atom: they are folded into hydrogen counts,
+   the output has fewer atoms, (iv) only;
+ * as before but a hydrogen outside the centre has no bond at all (free H / H+ / H- spectator): /repo deletes that atom
+   (`implicit_hydrogen`), the unmapped sides differ - a recorded deviation, counted, not gated.
+The `radical` stream feeds what the corpora lack: free hydrogen atoms, radicals, carbenes, bare atoms, ions (hand-written steps,
+spectators, free-hydrogen forms of the corpus' H-X cleavages, opened valences), the non-default options of its_to_rsmi, and
+the same queries repeated in another order.
+
 This module also holds the helpers shared with C02 (encoding, canonical forms, reaction variants,
 synthetic generators).
 """
@@ -215,7 +225,165 @@ def variant(rsmi, kind, rnd):
         if rnd.random() < 0.5:
             return l + "." + side + ">>" + r + "." + side
         return side + "." + l + ">>" + side + "." + r
+    if kind == "free_species":
+        # unchanged, fully mapped spectators that are NOT closed-shell molecules: free hydrogen atoms / protons / hydrides,
+        # radicals, carbenes, bare atoms, ions, metals, hypervalent hydrides - atoms whose hydrogen count RDKit would
+        # re-guess if the graph -> molecule step did not pin it
+        import re
+        top = max([int(x) for x in re.findall(r":(\d+)\]", rsmi)] or [0])
+        extra = []
+        for _ in range(rnd.choice([1, 1, 2])):
+            pool = FREE_HYDROGEN if rnd.random() < 0.4 else FREE_SPECIES
+            extra.append(rnd.choice(pool).format(a=top + 1, b=top + 2, c=top + 3, d=top + 4, e=top + 5, f=top + 6))
+            top += 6
+        side = ".".join(extra)
+        if rnd.random() < 0.5:
+            return l + "." + side + ">>" + r + "." + side
+        return side + "." + l + ">>" + side + "." + r
+    if kind == "free_h":
+        return free_h_form(rsmi, rnd)
+    if kind == "radical":
+        return radicalize(rsmi, rnd)
     raise ValueError(kind)
+
+
+# ------------------------------------------------------------------ radicals, ions, free hydrogen atoms
+# Hand-written elementary steps (balanced, fully mapped): radical chain steps, homolysis / recombination, heterolysis,
+# proton / hydride transfer, electron transfer.  Many contain a FREE hydrogen atom (H, H+, H-: a hydrogen node with no bond
+# on one side) or atoms with an open valence; none of the bundled corpora does.
+RADICAL_IONIC_STEPS = [
+    "[H:1].[Cl:2][Cl:3]>>[H:1][Cl:2].[Cl:3]",
+    "[H:1][Br:2].[CH2:3]=[CH2:4]>>[H:1].[Br:2][CH2:3][CH2:4]",
+    "[H:1].[H:2]>>[H:1][H:2]",
+    "[H:1][H:2]>>[H:1].[H:2]",
+    "[H:1][H:2]>>[H+:1].[H-:2]",
+    "[H-:1].[H+:2]>>[H:1][H:2]",
+    "[H:1][H:2].[H:3]>>[H:1].[H:2][H:3]",
+    "[H:1].[H+:2]>>[H+:1].[H:2]",
+    "[H:1][H:2].[CH2:3]=[CH2:4]>>[H:1][CH2:3][CH2:4][H:2]",
+    "[H+:1].[OH-:2]>>[H:1][OH:2]",
+    "[H+:1].[NH3:2]>>[H:1][NH3+:2]",
+    "[CH3:1][H:4].[Cl:2]>>[CH3:1].[H:4][Cl:2]",
+    "[H-:1].[CH3:2][Br:3]>>[H:1][CH3:2].[Br-:3]",
+    "[H:1][Cl:2]>>[H+:1].[Cl-:2]",
+    "[H:1][Cl:2]>>[H:1].[Cl:2]",
+    "[H:1][C:2]#[N:3]>>[H+:1].[C-:2]#[N:3]",
+    "[H:1].[CH2:2]=[CH2:3]>>[H:1][CH2:2][CH2:3]",
+    "[H:1].[O:2]=[O:3]>>[H:1][O:2][O:3]",
+    "[H:1].[H:2].[O:3]>>[H:1][O:3][H:2]",
+    "[H:1][H:2].[O:3]>>[H:1][O:3][H:2]",
+    "[C-:1]#[O+:2].[H:3]>>[H:3][C:1]=[O:2]",
+    "[O:1]=[C:2]=[O:3].[H-:4]>>[O-:1][C:2](=[O:3])[H:4]",
+    "[BH3:1].[H-:2]>>[BH3-:1][H:2]",
+    "[F:1].[H:2][H:3]>>[F:1][H:2].[H:3]",
+    "[OH:1].[H:2][CH3:3]>>[OH:1][H:2].[CH3:3]",
+    "[CH3:1][O:2].[H:3][CH3:4]>>[CH3:1][O:2][H:3].[CH3:4]",
+    "[Br:1].[H:2][CH2:3][CH3:4]>>[Br:1][H:2].[CH2:3][CH3:4]",
+    "[H:1][S:2][CH3:3].[OH:4]>>[S:2][CH3:3].[H:1][OH:4]",
+    "[Na+:1].[H-:2].[H:3][OH:4]>>[Na+:1].[OH-:4].[H:2][H:3]",
+    "[Li:1][CH3:2].[H:3][OH:4]>>[Li+:1].[OH-:4].[H:3][CH3:2]",
+    "[CH3:1][C:2](=[O:3])[O:4][H:5]>>[CH3:1][C:2](=[O:3])[O-:4].[H+:5]",
+    "[CH2:1]=[CH:2][CH:3]=[CH2:4].[H:5]>>[CH2:1]=[CH:2][CH:3]([H:5])[CH2:4]",
+    "[c:1]1([H:7])[cH:2][cH:3][cH:4][cH:5][cH:6]1.[OH:8]>>[c:1]1[cH:2][cH:3][cH:4][cH:5][cH:6]1.[H:7][OH:8]",
+    "[N:1]#[N:2].[H:3][H:4]>>[H:3][N:1]=[N:2][H:4]",
+    # explicit hydrogens that stay bonded outside the centre (no hydrogen in the centre: nothing is folded)
+    "[H:1][O:2][O:3][H:4]>>[H:1][O:2].[O:3][H:4]",
+    # explicit hydrogens outside the centre next to one inside (folded into hydrogen counts by its_to_rsmi)
+    "[H:1][O:2][H:3]>>[H+:1].[O-:2][H:3]",
+    "[C:1]([H:2])([H:3])([H:4])[H:5].[Cl:6]>>[C:1]([H:2])([H:3])[H:4].[H:5][Cl:6]",
+    "[H:1][C:2]([H:3])=[O:4]>>[H:1].[C:2]([H:3])=[O:4]",
+    "[CH3:1][C:2](=[O:3])[H:4].[H-:5]>>[CH3:1][C:2]([O-:3])([H:4])[H:5]",
+    "[H:1][B-:2]([H:3])([H:4])[H:5].[CH2:6]=[O:7]>>[H:3][B:2]([H:4])[H:5].[H:1][CH2:6][O-:7]",
+    # no explicit hydrogen: open valences, charges, hydrogen counts that change without a bond change
+    "[CH3:1][CH3:2]>>[CH3:1].[CH3:2]",
+    "[CH3:1].[CH3:2]>>[CH3:1][CH3:2]",
+    "[Cl:1][Cl:2]>>[Cl:1].[Cl:2]",
+    "[Br:1][Br:2]>>[Br:1].[Br:2]",
+    "[OH:1].[OH:2]>>[OH:1][OH:2]",
+    "[O:1].[O:2]>>[O:1]=[O:2]",
+    "[CH3:1][Cl:2]>>[CH3+:1].[Cl-:2]",
+    "[CH3:1][Li:2]>>[CH3-:1].[Li+:2]",
+    "[CH3:1][Mg:2][Br:3]>>[CH3:1].[Mg:2][Br:3]",
+    "[Na:1].[Cl:2]>>[Na+:1].[Cl-:2]",
+    "[Cl:1].[CH4:2]>>[ClH:1].[CH3:2]",
+    "[Fe+2:1].[OH:2][OH:3]>>[Fe+3:1].[OH-:2].[OH:3]",
+    "[N:1]=[O:2].[O:3]>>[O:3][N:1]=[O:2]",
+    "[O:1]=[O:2].[CH3:3]>>[O:1][O:2][CH3:3]",
+    "[CH2:1].[CH2:2]=[CH2:3]>>[CH2:1]1[CH2:2][CH2:3]1",
+    "[CH2:1]=[CH:2][CH2:3].[Br:4][Br:5]>>[CH2:1]=[CH:2][CH2:3][Br:4].[Br:5]",
+    "[CH3:1][CH2:2].[CH3:3][CH2:4]>>[CH3:1][CH3:2].[CH2:3]=[CH2:4]",
+    "[CH3:1][CH:2]([CH3:3])[CH2:4]>>[CH3:1][CH:2]=[CH2:4].[CH3:3]",
+]
+
+FREE_HYDROGEN = ["[H:{a}]", "[H:{a}]", "[H+:{a}]", "[H-:{a}]", "[H:{a}].[H:{b}]", "[H:{a}].[H+:{b}]", "[HH:{a}]"]
+
+FREE_SPECIES = [
+    "[CH3:{a}]", "[CH2:{a}]", "[CH:{a}]", "[C:{a}]", "[NH2:{a}]", "[NH:{a}]", "[N:{a}]", "[OH:{a}]", "[O:{a}]", "[SH:{a}]", "[S:{a}]",
+    "[F:{a}]", "[Cl:{a}]", "[Br:{a}]", "[I:{a}]", "[BH2:{a}]", "[BH3:{a}]", "[B:{a}]", "[SiH3:{a}]", "[Si:{a}]", "[PH2:{a}]", "[P:{a}]",
+    "[CH2:{a}][CH3:{b}]", "[CH2:{a}]=[CH:{b}]", "[CH:{a}]#[C:{b}]", "[O:{a}][O:{b}]", "[O:{a}]=[O:{b}]", "[N:{a}]=[O:{b}]",
+    "[O:{a}]=[N:{b}][O:{c}]", "[c:{a}]1[cH:{b}][cH:{c}][cH:{d}][cH:{e}][cH:{f}]1", "[CH2:{a}]=[CH:{b}][CH2:{c}]",
+    "[CH3:{a}][C:{b}]=[O:{c}]", "[CH3:{a}][O:{b}]", "[CH3:{a}][S:{b}]", "[O-:{a}][O:{b}]",
+    "[CH3+:{a}]", "[CH3-:{a}]", "[CH2-:{a}]", "[CH+:{a}]", "[NH4+:{a}]", "[NH3+:{a}]", "[OH3+:{a}]", "[OH2+:{a}]", "[OH+:{a}]", "[NH2-:{a}]",
+    "[O-2:{a}]", "[OH-:{a}]", "[N+:{a}]", "[O+:{a}]", "[Cl+:{a}]", "[SH-:{a}]", "[SH3+:{a}]", "[PH4+:{a}]", "[IH2+:{a}]", "[BH4-:{a}]", "[AlH4-:{a}]",
+    "[C-:{a}]#[O+:{b}]", "[N-:{a}]=[N+:{b}]=[N-:{c}]", "[PH5:{a}]", "[SH4:{a}]", "[SH6:{a}]", "[AlH3:{a}]", "[SnH3:{a}]", "[SiH2:{a}]", "[Se:{a}]", "[SeH:{a}]",
+    "[Fe+2:{a}]", "[Fe:{a}]", "[Na:{a}]", "[Na+:{a}]", "[Li:{a}]", "[K:{a}]", "[Ca:{a}]", "[Zn:{a}]", "[Mg+2:{a}]", "[Al+3:{a}]", "[Cu+:{a}]", "[Pd:{a}]", "[He:{a}]",
+    # with explicit hydrogen atoms
+    "[H:{a}][O:{b}]", "[H:{a}][O-:{b}]", "[H:{a}][C:{b}]([H:{c}])[H:{d}]", "[H:{a}][N:{b}][H:{c}]", "[H:{a}][S:{b}]", "[H:{a}][C:{b}]=[O:{c}]",
+]
+
+
+def free_h_form(rsmi, rnd):
+    """Turn one H-X bond of an explicit mapped hydrogen into free-hydrogen form on one side: the bond is cut and the
+    hydrogen left as a free atom (homolysis: H. + X.), proton (H+ + X-) or hydride (H- + X+).  The hydrogen then has no
+    bond on that side, and its old bond exists on the other side only, so it belongs to the reaction centre."""
+    from rdkit import Chem
+    sides = rsmi.split(">>")
+    if len(sides) != 2:
+        return None
+    k = rnd.choice([0, 1, 1])
+    mode = rnd.choice(["radical", "radical", "proton", "hydride"])
+    mol = Chem.MolFromSmiles(sides[k], sanitize=False)
+    if mol is None:
+        return None
+    cands = sorted((a.GetAtomMapNum(), a.GetIdx(), a.GetNeighbors()[0].GetIdx()) for a in mol.GetAtoms()
+                   if a.GetAtomicNum() == 1 and a.GetAtomMapNum() and a.GetDegree() == 1 and a.GetNeighbors()[0].GetAtomicNum() != 1)
+    if not cands:
+        return None
+    _, h, x = rnd.choice(cands)
+    rw = Chem.RWMol(mol)
+    rw.RemoveBond(h, x)
+    dq = {"radical": 0, "proton": 1, "hydride": -1}[mode]
+    rw.GetAtomWithIdx(h).SetFormalCharge(rw.GetAtomWithIdx(h).GetFormalCharge() + dq)
+    rw.GetAtomWithIdx(x).SetFormalCharge(rw.GetAtomWithIdx(x).GetFormalCharge() - dq)
+    sides[k] = Chem.MolToSmiles(rw, canonical=False)
+    return ">>".join(sides)
+
+
+_HTOK = re.compile(r"\[(?P<sym>[A-Z][a-z]?|[a-z])(?P<chi>@{0,2})H(?P<h>\d*)(?P<q>[+-]+\d*)?:(?P<m>\d+)\]")
+
+
+def radicalize(rsmi, rnd):
+    """Open a valence on one or two atoms: the bracket hydrogen count of the chosen mapped atom(s) is lowered by one on BOTH
+    sides (a radical site, or a carbene for two on one atom, that the reaction does not touch).  Text-level edit."""
+    l, r = rsmi.split(">>")
+
+    def toks(s):
+        return {int(m.group("m")) for m in _HTOK.finditer(s) if not m.group("chi")}
+
+    both = sorted(toks(l) & toks(r))
+    if not both:
+        return None
+    ms = set(rnd.sample(both, min(rnd.choice([1, 1, 2]), len(both))))
+
+    def dec(s):
+        def f(m):
+            if int(m.group("m")) not in ms or m.group("chi"):
+                return m.group(0)
+            h = int(m.group("h") or 1) - 1
+            return "[" + m.group("sym") + ("" if h == 0 else "H" if h == 1 else f"H{h}") + (m.group("q") or "") + ":" + m.group("m") + "]"
+        return _HTOK.sub(f, s)
+
+    return dec(l) + ">>" + dec(r)
 
 
 def reaction_graphs(rsmi):
@@ -554,9 +722,11 @@ def shrink_pair(ctx, case, what):
 
 
 # ------------------------------------------------------------------ reaction-level stream (i)–(iv)
-def reaction_cases(ctx, items, tag):
-    """items: list of (src, idx, kind, rsmi)."""
+def reaction_cases(ctx, items, tag, opts=None):
+    """items: list of (src, idx, kind, rsmi).  `opts`: non-default keyword arguments for `its_to_rsmi`
+    (`explicit_hydrogen`, `sanitize`); recorded in the case so that a replay uses them again."""
     from synkit.IO.chem_converter import its_to_rsmi, rsmi_to_its
+    opts = dict(opts or {})
 
     gcases, iso_reqs, iso_meta = [], [], []
     for src, idx, kind, rsmi in items:
@@ -571,6 +741,8 @@ def reaction_cases(ctx, items, tag):
             ctx.count(f"{tag}:skipped:{why}")
             continue
         meta = {"src": src, "idx": idx, "variant": kind, "rsmi": rsmi}
+        if opts:
+            meta["opts"] = opts
         if probed:
             # history probe, part 2: the same SMILES was converted earlier with a different (lighter or
             # heavier) attribute selection / options; the default conversion must not see any of it
@@ -595,11 +767,21 @@ def reaction_cases(ctx, items, tag):
                 if g.nodes[u].get("element") == "H" and g.nodes[v].get("element") == "H":
                     rc.update((u, v))
         hs = [n for n, d in its.nodes(data=True) if d.get("element") == "H"]
-        if any(n not in rc for n in hs):
-            ctx.count(f"{tag}:rsmi-part-skipped:explicit-H-outside-centre")
+        hs_in, hs_out = [n for n in hs if n in rc], [n for n in hs if n not in rc]
+        # its_to_rsmi keeps the centre's hydrogens explicit and, WHEN there is one, folds every other explicit hydrogen into the
+        # hydrogen count of its heavy neighbour (not with explicit_hydrogen=True, and not when the centre has no hydrogen: the
+        # graphs then go to RDKit as they are).  A folded output has fewer atoms, so only the unmapped sides are compared.
+        folded = bool(hs_in and hs_out) and not opts.get("explicit_hydrogen")
+        if folded and any(r.degree(n) == 0 or p.degree(n) == 0 for n in hs_out):
+            # recorded deviation of /repo (reported, not gated): a hydrogen atom without any bond outside the centre (spectator
+            # H / H+ / H-, or a free hydrogen that only changes charge) is deleted by implicit_hydrogen when another hydrogen
+            # is in the centre, e.g. [H:1][Cl:2].[NH3:3].[H+:4]>>[H:1][NH3+:3].[Cl-:2].[H+:4]
+            ctx.count(f"{tag}:rsmi-part-skipped:free-hydrogen-outside-centre-while-centre-has-hydrogen(dropped by implicit_hydrogen)")
             continue
-        out = its_to_rsmi(its)
-        ctx.count(f"{tag}:rsmi-roundtrips")
+        if hs and not folded:
+            ctx.count(f"{tag}:rsmi-roundtrips:explicit-hydrogens-all-kept" + (":free-hydrogen-atom" if any(r.degree(n) == 0 or p.degree(n) == 0 for n in hs) else ""))
+        out = its_to_rsmi(its, **opts)
+        ctx.count(f"{tag}:rsmi-roundtrips" + (":folded(unmapped sides only)" if folded else ""))
         if out is None:
             ctx.violation("its_to_rsmi returns None for the ITS of a balanced mapped reaction", {"stream": tag, **meta})
             continue
@@ -608,16 +790,19 @@ def reaction_cases(ctx, items, tag):
         except Exception as e:
             ctx.violation("the reaction SMILES written from the ITS does not parse back", {"stream": tag, **meta}, {"out": out, "error": type(e).__name__})
             continue
-        iso_reqs.append(iso_request(iso_form(its), iso_form(its2)))
+        which = None
+        if not folded:      # a folded output has fewer atoms: only its unmapped sides are gated
+            which = len(iso_reqs)
+            iso_reqs.append(iso_request(iso_form(its), iso_form(its2)))
         l, r_ = rsmi.split(">>")
         lo, ro = out.split(">>")
-        iso_meta.append((meta, out, len(its), len(its2), (unmapped_side(l), unmapped_side(r_)), (unmapped_side(lo), unmapped_side(ro))))
+        iso_meta.append((which, meta, out, len(its), len(its2), (unmapped_side(l), unmapped_side(r_)), (unmapped_side(lo), unmapped_side(ro))))
     graph_cases(ctx, gcases, tag, lossless=True)
     if len(ctx.violations) >= 6:
         return
     verdicts = ctx.lean().ok(iso_reqs, shards=8)
-    for v, (meta, out, n1, n2, um_in, um_out) in zip(verdicts, iso_meta):
-        if not v:
+    for which, meta, out, n1, n2, um_in, um_out in iso_meta:
+        if which is not None and not verdicts[which]:
             ctx.violation("its_to_rsmi output is not atom-map-equivalent to the input (ITS graphs not isomorphic)",
                           {"stream": tag, **meta}, {"out": out, "nodes_in": n1, "nodes_out": n2})
         if None in um_in:
@@ -834,8 +1019,11 @@ def rsmi_graph_items(ctx):
     return cases
 
 
-def rsmi_graph_stream(ctx):
+def rsmi_graph_stream(ctx, radical_cases=None):
     rsmi_graph_cases(ctx, rsmi_graph_items(ctx), "rsmi-graphs:corpus")
+    if ctx.violations:
+        return
+    rsmi_graph_cases(ctx, radical_cases or [], "rsmi-graphs:radical")
     if ctx.violations:
         return
     ex = []
@@ -870,6 +1058,87 @@ def corpus_items(ctx, per_variant):
     return items
 
 
+def _variants_of(ctx, tag, recs, kind, draws=1):
+    """-> items (src, idx, kind, variant) for the reactions `recs` ({"src", "idx", "rsmi"}); failures counted."""
+    items = []
+    for rec in recs:
+        for _ in range(draws):
+            try:
+                v = variant(rec["rsmi"], kind, ctx.rnd)
+            except Exception:
+                v = None
+            if v is None:
+                ctx.count(f"{tag}:variant-not-applicable:{kind}")
+                continue
+            items.append((rec["src"], rec["idx"], kind, v))
+    return items
+
+
+def radical_stream(ctx):
+    """Rare-but-legal reactions the corpora do not contain: free hydrogen atoms (H, H+, H-), radicals, carbenes, bare atoms and
+    ions - atoms whose hydrogen count RDKit re-guesses unless graph -> molecule pins it - as hand-written elementary steps,
+    as unchanged spectators of corpus reactions, as free-hydrogen forms of the corpus' H-X cleavages and as opened valences
+    on corpus atoms; then the same kind of input through the non-default options of its_to_rsmi; then repeated / re-ordered
+    queries.  Gates are those of `reaction_cases` (graph part with the model, ITS isomorphism by Lean, unmapped sides)."""
+    recs = load_reactions()
+    hand = [{"src": "radical-ionic-steps", "idx": i, "rsmi": x} for i, x in enumerate(RADICAL_IONIC_STEPS)]
+    with_h = [r for r in recs if re.search(r"\[H[+-]?:\d+\]", r["rsmi"])]
+    q = ctx.quick
+    tag = "radical"
+
+    def some(pop, n):
+        return pop if not q else ctx.rnd.sample(pop, min(n, len(pop)))
+
+    items = []
+    for kind in ("identity", "reverse", "renumber_sparse", "shuffle", "reroot", "free_species", "radical", "spectator_h"):
+        items += _variants_of(ctx, tag, hand, kind, 1 if q or kind in ("identity", "reverse") else 4)
+    items += _variants_of(ctx, tag, some(with_h, 45), "free_h", 1 if q else 3)
+    items += _variants_of(ctx, tag, some(recs, 45), "free_species", 1 if q else 2)
+    items += _variants_of(ctx, tag, some(recs, 35), "radical", 1 if q else 2)
+    # composed: a free-hydrogen form with open-shell spectators, in reverse
+    for src, idx, kind, v in _variants_of(ctx, tag, some(with_h, 20), "free_h"):
+        try:
+            w = variant(variant(v, "free_species", ctx.rnd), "reverse", ctx.rnd)
+        except Exception:
+            continue
+        items.append((src, idx, "free_h+free_species+reverse", w))
+    for it in items:
+        ctx.count(f"{tag}:generated:{it[2]}")
+    reaction_cases(ctx, items, tag)
+    if ctx.violations:
+        return
+
+    # option variation: the reaction SMILES written with explicit_hydrogen=True (every explicit hydrogen stays an atom, nothing
+    # is folded: all gates apply whatever the centre is) and with sanitize=False
+    base = [(r["src"], r["idx"], "identity", r["rsmi"]) for r in hand]
+    for opts, pops in (({"explicit_hydrogen": True}, (("free_h", with_h, 30), ("spectator_h", recs, 30), ("free_species", recs, 25), ("identity", recs, 25))),
+                       ({"sanitize": False}, (("free_h", with_h, 20), ("free_species", recs, 20), ("identity", recs, 20))),
+                       ({"explicit_hydrogen": True, "sanitize": False}, (("free_species", recs, 15), ("spectator_h", recs, 15)))):
+        its_ = list(base) + _variants_of(ctx, tag, hand, "free_species")
+        for kind, pop, n in pops:
+            its_ += _variants_of(ctx, tag, some(pop, n), kind)
+        otag = tag + ":" + ",".join(f"{k}={v}" for k, v in sorted(opts.items()))
+        reaction_cases(ctx, its_, otag, opts=opts)
+        if ctx.violations:
+            return
+
+    # hidden state between calls: the same queries again, in another order, default options after the option runs above
+    again = list(base) + ctx.rnd.sample(items, min(len(items), 60 if q else 400))
+    ctx.rnd.shuffle(again)
+    reaction_cases(ctx, again, tag + ":repeat")
+    if ctx.violations:
+        return
+
+    # for stream (v) on the same population: list + graphs its_to_rsmi hands to GraphToMol == model its.rsmiGraphs
+    cases = []
+    for src, idx, kind, v in base + ctx.rnd.sample(items, min(len(items), 120 if q else 1500)):
+        r, p, why = reaction_graphs(v)
+        if why:
+            continue
+        cases.append((r, p, {"src": src, "idx": idx, "variant": kind, "rsmi": v}))
+    return cases
+
+
 def load_regress(pid):
     d = ROOT / "regress" / pid
     return [json.loads(f.read_text()) for f in sorted(d.glob("*.json"))] if d.exists() else []
@@ -879,7 +1148,7 @@ def run_regress(ctx, pid="C01"):
     for c in load_regress(pid):
         c = c.get("case", c)
         if "rsmi" in c:
-            reaction_cases(ctx, [(c.get("src", "regress"), c.get("idx", -1), c.get("variant", "identity"), c["rsmi"])], "regress")
+            reaction_cases(ctx, [(c.get("src", "regress"), c.get("idx", -1), c.get("variant", "identity"), c["rsmi"])], "regress", opts=c.get("opts"))
         else:
             graph_cases(ctx, [(graphio.to_nx(c["G"]), graphio.to_nx(c["H"]), c.get("meta"))], "regress", c.get("lossless", True))
         ctx.count("regress_cases")
@@ -912,7 +1181,16 @@ def run(ctx):
                     "stream (v) its_to_rsmi glue vs its.rsmiGraphs: corpus reactions (uspto: explicit hydrogens in the centre; hydro: no explicit "
                     "hydrogen, empty-list branch; ecoli) x {identity, explicit-hydrogen spectators incl. H2, spectator, reversal (thorough: + sparse "
                     "renumbering, all reactions; quick: 15-40 per source and variant)}, all pairs n<=2 and (quick: 700 sampled; thorough: all) pairs "
-                    "n=3 of the exhaustive family, random molecule-like pairs (quick 300, thorough 4000).")
+                    "n=3 of the exhaustive family, random molecule-like pairs (quick 300, thorough 4000). "
+                    "stream `radical` (all gates of the corpus stream): 58 hand-written radical / ionic elementary steps (free H, H+, H-, homolysis, "
+                    "heterolysis, proton / hydride / electron transfer) x {identity, reversal, sparse renumbering, fragment shuffle, re-rooting, "
+                    "open-shell spectators, opened valence, explicit-hydrogen spectators}; corpus reactions x {free_h: one H-X bond of an explicit "
+                    "hydrogen cut into free H. / H+ / H- form on one side, free_species: unchanged spectators from a pool of 7 free-hydrogen and 85 "
+                    "radical / carbene / atom / ion / metal templates, radical: bracket hydrogen count of 1-2 atoms lowered on both sides, and "
+                    "free_h+free_species+reverse} (quick 20-45 per kind, thorough all x 2-3 draws); the same populations with "
+                    "its_to_rsmi(explicit_hydrogen=True), (sanitize=False) and both; a shuffled repeat of 60 (thorough 400) of these queries + the "
+                    "hand-written steps with default options after the option runs; stream (v) on the hand-written steps + 120 (thorough 1500) "
+                    "of the variants.")
     ctx.nontrivial_rule = "distinct (G,H) as encoded graphs, with >=3 atoms and >=1 bond whose order differs between the sides"
     build_and_audit(ctx, ["SynKitProofs.Props.C01"], "SynKitProofs/Audit/C01.lean", THEOREMS)
 
@@ -941,9 +1219,12 @@ def run(ctx):
             ctx.count("malformed:" + kind)
             mal.append((G, H, {"malformed": kind}))
         graph_cases(ctx, mal, "malformed", lossless=False)
+    radical_cases = None
+    if not ctx.violations:
+        radical_cases = radical_stream(ctx)
     ok_before = not ctx.violations
     if not ctx.violations:
-        rsmi_graph_stream(ctx)
+        rsmi_graph_stream(ctx, radical_cases)
     ctx.obligation("correspondence: ITSGraph == model construct; its_decompose == model decompose == input pair", ok_before)
     ctx.obligation("correspondence (v): the preserve_atom_maps list and the two graphs the real its_to_rsmi hands to GraphToMol.graph_to_mol "
                    "(observed by wrapping graph_to_smi / implicit_hydrogen / GraphToMol) == model its.rsmiGraphs (SynKitModel/RsmiGraph.lean: "
@@ -965,7 +1246,7 @@ def replay(ctx, case):
             rsmi_graph_cases(ctx, [(graphio.to_nx(c["G"]), graphio.to_nx(c["H"]), c.get("meta"))], "rsmi-graphs:replay")
         return
     if "rsmi" in c:
-        reaction_cases(ctx, [(c.get("src"), c.get("idx"), c.get("variant"), c["rsmi"])], "replay")
+        reaction_cases(ctx, [(c.get("src"), c.get("idx"), c.get("variant"), c["rsmi"])], "replay", opts=c.get("opts"))
     else:
         graph_cases(ctx, [(graphio.to_nx(c["G"]), graphio.to_nx(c["H"]), c.get("meta"))], "replay",
                     lossless=c.get("stream") != "malformed")
